@@ -17,7 +17,13 @@ def plan(ctx):
            ("deep-faults", sched.mk(sched.DEEP, Tocks=[0], MaxSteps=2, Limit=2, Faults=["x", "k"], EnterOuts=["ok", "x"], MaxFaults=1)),
            ("flat-ops", sched.mk(["a", "b"], extra=["x", "y"], Tocks=[0], MaxSteps=3, Limit=3, MaxOps=2, Faults=["x"], MaxFaults=1,
                                  EnterOuts=["ok", "x"], ext={"R": [["x", "y"], ["x", "x"]]}, rem={"R": [["a"], ["b", "a"], ["x"]]})),
-           ("always", sched.mk(["a", ["G", "b"]], always={"G": True}, Tocks=[0, 1], MaxSteps=2, Limit=3, Faults=["x", "k"], MaxFaults=1))]
+           ("always", sched.mk(["a", ["G", "b"]], always={"G": True}, Tocks=[0, 1], MaxSteps=2, Limit=3, Faults=["x", "k"], MaxFaults=1)),
+           # a DoDoer's own extend() with two new doers where the enter of either may raise, and a DoDoer's remove() called in
+           # the middle of its cycle with victims on both sides of the caller (seeded changes C02-a1 / C02-a2 hid there)
+           ("dd-ext-fault", sched.mk([["G", "a", "b"], "c"], extra=["x", "y"], always={"G": True}, Tocks=[0], MaxSteps=2, Limit=3,
+                                     MaxOps=1, EnterOuts=["ok", "x"], MaxFaults=1, ext={"G": [["x", "y"]]})),
+           ("dd-remove-mid", sched.mk([["G", "b", "c", "e"], "d"], Tocks=[0], MaxSteps=3, Limit=3, MaxOps=1,
+                                      rem={"G": [["b", "e"], ["e", "b"], ["e", "c", "b"]]}))]
     big = sched.mk(["a", ["G", "b", ["H", "c", "e"]], "d", ["K", "f"]], extra=["x", "y", "z"], owntock={"K": 2},
                    Tocks=[0, 1, 2, 3], MaxSteps=5, Limit=6, Rets=["T", "F", "N"], Faults=["x", "k"], EnterOuts=["ok", "x", "r"],
                    MaxFaults=1, MaxOps=3, ext={"R": [["x"], ["x", "x"], ["a", "x", "y"]], "G": [["z"], ["b", "z"]]},
